@@ -198,6 +198,11 @@ def contraction_cases(tier, fermionic):
                     out.append((sp, other, axes, None))
                     if ncon >= 2:
                         out.append((sp, other, (tuple(reversed(axes[0])), tuple(reversed(axes[1]))), None))
+                        # a's contracted axes listed highest first against b's lowest first (b's legs are stored in that order)
+                        crossed = partner(sp, ncon, nfree, drop=pdrop, crossed=True,
+                                          charge=(model.combine() if pch == "identity" else NONTRIVIAL[sp.sym]))
+                        if crossed is not None:
+                            out.append((sp, crossed, (tuple(reversed(axes[0])), axes[1]), None))
                     # operands carrying a leg fused beforehand (free on a, free on b, or contracted on both)
                     if nd - ncon >= 2 and pdrop == "none":
                         out.append((sp, other, axes, ("prefuse-a-free", tuple(range(0, nd - ncon)))))
@@ -320,3 +325,244 @@ def check_contraction(prog, ctx, rules=("K1", "K2", "K3"), fermionic_too=True):
         n = counts.get(key, len(jobs))
         ctx.check(key not in wits, rid, f, f.node, key, f"{msg} ({n} abstract evaluations)" + ("" if key not in wits else f" — witness: {wits[key]}"))
     return len(jobs)
+
+
+# ---------------------------------------------------------------------------------------------------------------
+# K4: entry points (axes forms, matmul, trace, einsum, scalar results, mode switch)
+# ---------------------------------------------------------------------------------------------------------------
+def entry_cases(tier):
+    out = []
+    syms = ("Z2", "U1") if tier == "quick" else ("Z2", "U1", "Z2Z2", "U1U1", "Z4")
+    for sym in syms:
+        for fm in (False, True):
+            for nd in (1, 2, 3):
+                for duals in ({1: [(False,), (True,)], 2: [(False, True), (True, True)], 3: [(False, True, False), (True, False, False)]}[nd]):
+                    for ch in (Model(sym).combine(), NONTRIVIAL[sym]):
+                        for drop in ("none", "first"):
+                            sp = Spec(sym, duals, ch, TABLES[sym][:nd], drop=drop, fermionic=fm, signs=(1 if fm else 0))
+                            if sp.sectors():
+                                out.append(sp)
+    return out
+
+
+def _scalar_terms(v):
+    if isinstance(v, STok):
+        return _terms(v.term)
+    return None
+
+
+def _entry_job(state, sp):
+    prog, tier = state
+    w = World(prog)
+    wit = Witness()
+    model = Model(sp.sym)
+    nd = sp.ndim
+    fm = sp.fermionic
+    where = sp.describe()
+    td = "symmray.interface:tensordot"
+
+    def sync(ev, a):
+        return w.meth(ev, a, "phase_sync") if fm else a
+
+    try:
+        # integer axes and negative axes mean what numpy means
+        for ncon in range(0, nd + 1):
+            other = partner(sp, ncon, 1, drop="alternate") or partner(sp, ncon, 1)
+            if other is None:
+                continue
+            axa, axb = tuple(range(nd - ncon, nd)), tuple(range(ncon))
+            for form, axes in (("int", ncon), ("negative", (tuple(a - nd for a in axa), tuple(b - other.ndim for b in axb)))):
+                ev = w.ev()
+                x, y = sp.build(w), other.build(w)
+                r = w.fn(ev, td, x, y, axes=axes, preserve_array=True)
+                compare_result(wit, "K4", f"{where} ; b: {other.describe()} ; axes={axes!r} ({form})", sync(ev, r), sync(w.ev(), sp.build(w)),
+                               sync(w.ev(), other.build(w)), axa, axb, model, fm)
+            # unknown mode / unequal axes must be refused
+            for what, kw in (("unknown mode", {"axes": (axa, axb), "mode": "sideways"}), ("unequal axes", {"axes": (axa, axb + (0,))})):
+                if fm and what == "unknown mode":
+                    continue
+                wit.tick("K4")
+                try:
+                    w.fn(w.ev(), td, sp.build(w), other.build(w), **kw)
+                    wit.bad("K4", f"{where}: {what} is accepted silently")
+                except Raised:
+                    pass
+                except PYERR:
+                    if what == "unknown mode":
+                        wit.bad("K4", f"{where}: {what} fails with an unrelated error")
+        # full contraction: scalar result, and zero when nothing aligns
+        full = partner(sp, nd, 0)
+        if full is not None:
+            ev = w.ev()
+            r = w.fn(ev, td, sp.build(w), full.build(w), axes=nd)
+            want, _, _, _ = definition(sp.build(w), full.build(w), tuple(range(nd)), tuple(range(nd)), model)
+            wit.tick("K4")
+            ts = _scalar_terms(r)
+            if want.get(()):
+                if ts is None or len(ts) != len(want[()]):
+                    wit.bad("K4", f"{where}: full contraction returns {r!r}, expected a sum of {len(want[()])} pair products")
+            elif r != 0.0:
+                wit.bad("K4", f"{where}: full contraction with no aligned sectors returns {r!r}, expected 0.0")
+            # disjoint sectors -> zero
+            secs = sp.sectors()
+            if len(secs) >= 2:
+                xa = Spec(sp.sym, sp.duals, sp.charge, sp.tables, fermionic=fm, tag="x", label=sp.label)
+                xb = full
+                x = xa.build(w)
+                y = xb.build(w)
+                keep_x = secs[:1]
+                x.fields["_blocks"] = {s: b for s, b in x.fields["_blocks"].items() if s in keep_x}
+                y.fields["_blocks"] = {s: b for s, b in y.fields["_blocks"].items() if s not in keep_x}
+                if fm:
+                    x.fields["_phases"] = {s: p for s, p in x.fields["_phases"].items() if s in x.fields["_blocks"]}
+                    y.fields["_phases"] = {s: p for s, p in y.fields["_phases"].items() if s in y.fields["_blocks"]}
+                for mode in ("blockwise", "fused"):
+                    wit.tick("K4")
+                    r = w.fn(w.ev(), td, x, y, axes=nd, mode=mode) if not fm else w.fn(w.ev(), td, x, y, axes=nd)
+                    if r != 0.0:
+                        wit.bad("K4", f"{where}: full contraction of operands with disjoint sectors (mode {mode}) returns {r!r}, expected 0.0")
+        # matmul
+        if nd <= 2:
+            for nfree in (0, 1):
+                other = partner(sp, 1, nfree, drop="alternate") or partner(sp, 1, nfree)
+                if other is None:
+                    continue
+                ev = w.ev()
+                r = w.meth(ev, sp.build(w), "__matmul__", other.build(w))
+                wit.tick("K4")
+                if nd - 1 + nfree == 0:
+                    want, _, _, _ = definition(sp.build(w), other.build(w), (nd - 1,), (0,), model)
+                    ts = _scalar_terms(r)
+                    if want.get(()) and (ts is None or len(ts) != len(want[()])):
+                        wit.bad("K4", f"{where} @ {other.describe()}: returns {r!r}, expected a sum of {len(want[()])} pair products")
+                    if not want.get(()) and r != 0.0:
+                        wit.bad("K4", f"{where} @ {other.describe()}: returns {r!r}, expected 0.0")
+                else:
+                    compare_result(wit, "K4", f"{where} @ {other.describe()}", sync(ev, r), sync(w.ev(), sp.build(w)), sync(w.ev(), other.build(w)),
+                                   (nd - 1,), (0,), model, fm)
+        # permutation einsum: same blocks, re-keyed
+        if nd >= 2:
+            perm = tuple(range(1, nd)) + (0,)
+            eq = "abcd"[:nd] + "->" + "".join("abcd"[i] for i in perm)
+            ev = w.ev()
+            r = sync(ev, w.meth(ev, sp.build(w), "einsum", eq))
+            x = sync(w.ev(), w.meth(w.ev(), sp.build(w), "transpose", perm)) if fm else sp.build(w)
+            wit.tick("K4")
+            got = {}
+            for s, b in r.fields["_blocks"].items():
+                t = b.term
+                sg = 1
+                if isinstance(t, tuple) and t and t[0] == "neg":
+                    sg, t = -1, t[1]
+                got[s] = (sg, t)
+            if fm:
+                exp = {s: (source(b.term)[0], ("einsum", "abcd"[:nd] + "->" + "abcd"[:nd], source(b.term)[1])) for s, b in x.fields["_blocks"].items()}
+                if set(got) != set(exp):
+                    wit.bad("K4", f"{where}: einsum({eq}) sectors {sorted(got)} != {sorted(exp)}")
+            else:
+                exp = {tuple(s[i] for i in perm): (1, ("einsum", eq, b.term)) for s, b in x.fields["_blocks"].items()}
+                if got != exp:
+                    wit.bad("K4", f"{where}: einsum({eq}) does not return each block under its permuted sector")
+            if [ixdesc(i) for i in r.fields["_indices"]] != [ixdesc(sp.build(w).fields["_indices"][i]) for i in perm]:
+                wit.bad("K4", f"{where}: einsum({eq}) indices are not the permuted indices")
+    except Unsupported as e:
+        raise AnalysisError(f"contraction entry point outside the evaluable sub-language: {e}")
+    except Raised as e:
+        wit.bad("K4", f"{where}: raises {e.what[:120]}")
+    except PYERR as e:
+        wit.bad("K4", f"{where}: {type(e).__name__}: {e}")
+    return wit.w, wit.n
+
+
+def _trace_job(state, sp):
+    """trace and tracing einsum on matrices / rank-3 arrays whose traced indices are conjugates of each other"""
+    prog, tier = state
+    w = World(prog)
+    wit = Witness()
+    where = sp.describe()
+    try:
+        x = sp.build(w)
+        ev = w.ev()
+        if sp.ndim == 2:
+            r = w.meth(ev, sp.build(w), "trace")
+            diag = [s for s in x.fields["_blocks"] if s[0] == s[1]]
+            wit.tick("K4")
+            ts = _scalar_terms(r)
+            if diag:
+                leaves = sorted(repr(source(t[1][1] if t[1][0] == "trace" else t[1])[1]) for t in ts) if ts else None
+                want = sorted(repr(source(x.fields["_blocks"][s].term)[1]) for s in diag)
+                if ts is None or any(t[1][0] != "trace" for t in ts) or leaves != want:
+                    wit.bad("K4", f"{where}: trace returns {r!r}, expected the sum of the traces of the diagonal blocks {diag}")
+            elif r != 0 and r != 0.0:
+                wit.bad("K4", f"{where}: trace with no diagonal block returns {r!r}")
+            r2 = w.meth(w.ev(), sp.build(w), "einsum", "aa->")
+            ts2 = _scalar_terms(r2)
+            wit.tick("K4")
+            if diag and (ts2 is None or len(ts2) != len(diag)):
+                wit.bad("K4", f"{where}: einsum('aa->') returns {r2!r}, expected one term per diagonal block")
+            if not diag and r2 != 0.0:
+                wit.bad("K4", f"{where}: einsum('aa->') with no diagonal block returns {r2!r}, expected 0.0")
+        else:
+            r = w.meth(ev, sp.build(w), "einsum", "abb->a")
+            if sp.fermionic:
+                r = w.meth(ev, r, "phase_sync")
+            wit.tick("K4")
+            want = {}
+            for s in x.fields["_blocks"]:
+                if s[1] == s[2]:
+                    want.setdefault((s[0],), []).append(s)
+            got = {s: len(_terms(b.term)) for s, b in r.fields["_blocks"].items()}
+            if got != {s: len(v) for s, v in want.items()}:
+                wit.bad("K4", f"{where}: einsum('abb->a') gives blocks {got}, expected one term per sector with equal traced charges: "
+                              f"{ {s: len(v) for s, v in want.items()} }")
+            for kind, text in audit_kinds(r, sp.sym):
+                wit.bad("K4", f"{where}: einsum('abb->a'): {text}")
+    except Unsupported as e:
+        raise AnalysisError(f"trace / einsum outside the evaluable sub-language: {e}")
+    except Raised as e:
+        wit.bad("K4", f"{where}: raises {e.what[:120]}")
+    except PYERR as e:
+        wit.bad("K4", f"{where}: {type(e).__name__}: {e}")
+    return wit.w, wit.n
+
+
+def trace_cases(tier):
+    out = []
+    syms = ("Z2", "U1") if tier == "quick" else ("Z2", "U1", "Z2Z2", "U1U1", "Z4")
+    for sym in syms:
+        t = TABLES[sym][0]
+        ident = Model(sym).combine()
+        for fm in (False, True):
+            for d0 in (False, True):
+                for drop in ("none", "first"):
+                    sp = Spec(sym, (d0, not d0), ident, (t, t), drop=drop, fermionic=fm, signs=(1 if fm else 0))
+                    if sp.sectors():
+                        out.append(sp)
+                    for ch in (ident, NONTRIVIAL[sym]):
+                        for da in (False, True):
+                            sp3 = Spec(sym, (da, not d0, d0), ch, (TABLES[sym][1], t, t), drop=drop, fermionic=fm, signs=(1 if fm else 0))
+                            if sp3.sectors():
+                                out.append(sp3)
+    return out
+
+
+def check_entrypoints(prog, ctx, rid="K4"):
+    from engine.parallel import pmap
+
+    tier = ctx.tier
+    wits, counts = {}, {}
+    jobs = entry_cases(tier)
+    tjobs = trace_cases(tier)
+    for fnj, js in ((_entry_job, jobs), (_trace_job, tjobs)):
+        for wmap, n in pmap(fnj, (prog, tier), js):
+            for k, v in wmap.items():
+                wits.setdefault(k, v)
+            for k, v in n.items():
+                counts[k] = counts.get(k, 0) + v
+    ctx.need(len(jobs) >= 40 and len(tjobs) >= 20, f"entry points: only {len(jobs)}+{len(tjobs)} cases")
+    td = prog.func("symmray.abelian_core:tensordot_abelian")
+    ctx.check("K4" not in wits, rid, td, td.node, "entry points",
+              f"integer and negative axes, matmul, trace, tracing and permuting einsum, scalar results (0.0 when nothing aligns) and the "
+              f"refusal of unknown modes / unequal axes agree with the definition ({counts.get('K4', 0)} abstract evaluations)"
+              + ("" if "K4" not in wits else f" — witness: {wits['K4']}"))
+    return len(jobs) + len(tjobs)
